@@ -286,6 +286,36 @@ class TMap(Sort):
         return z3.ArraySort(self.k.z3(), self.v.z3())
 
 
+class TUnionS(Sort):
+    "a python value of one of: None(0) str(1) int(2) bool(3) object reference(4)"
+
+    def name(self):
+        return "PyU"
+
+    def z3(self):
+        return _dt("PyU", "mkPyU", [("u_tag", z3.IntSort()), ("u_s", z3.StringSort()), ("u_i", z3.IntSort()), ("u_b", z3.BoolSort()),
+                                    ("u_r", z3.IntSort())])
+
+    def mk(self, tag, s=None, i=None, b=None, r=None):
+        return self.z3().constructor(0)(z3.IntVal(tag), s if s is not None else z3.StringVal(""), i if i is not None else z3.IntVal(0),
+                                        b if b is not None else z3.BoolVal(False), r if r is not None else z3.IntVal(0))
+
+    def tag(self, t):
+        return _acc(self.z3(), 0, 0, t)
+
+    def s(self, t):
+        return _acc(self.z3(), 0, 1, t)
+
+    def i(self, t):
+        return _acc(self.z3(), 0, 2, t)
+
+    def b(self, t):
+        return _acc(self.z3(), 0, 3, t)
+
+    def r(self, t):
+        return _acc(self.z3(), 0, 4, t)
+
+
 class TTup(Sort):
     "fixed-arity tuple of sorts; only used as Python-side structure (VTuple)"
 
@@ -305,6 +335,7 @@ Str = TStrS()
 Ref = TRefS()
 Type = TTypeS()
 Func = TFuncS()
+PyU = TUnionS()
 
 
 def RefOf(cls):
@@ -459,6 +490,15 @@ class VMap(Val):
         self.sort = sort
 
 
+class VUnion(Val):
+    sort = None
+
+    def __init__(self, t, ref_cls=None):
+        self.t = t
+        self.sort = PyU
+        self.ref_cls = ref_cls
+
+
 class VConcDict(Val):
     "dict with concrete structure: list of (key Val, value Val) -- keys must be pairwise distinct concretely"
 
@@ -537,6 +577,8 @@ def mk_val(t, sort: Sort):
         return VSet(t, sort)
     if isinstance(sort, TMap):
         return VMap(t, sort)
+    if isinstance(sort, TUnionS):
+        return VUnion(t)
     if isinstance(sort, TTup):
         dt = sort.z3()
         return VTuple([mk_val(dt.accessor(0, i)(t), s) for i, s in enumerate(sort.items)])
